@@ -541,7 +541,24 @@ class Automaton:
             self._class_cache[key] = s
         return self._class_cache[key]
 
+    def _canon_label(self, chars, fallback):
+        """Label of a position by the SET of characters it accepts (independent
+        of how the class is written in the source)."""
+        cs = sorted(self.alphabet[i] for i in chars if self.alphabet[i] != EOS)
+        if not cs:
+            return fallback
+        if all(c.isspace() for c in cs) and len(cs) >= 5:
+            return '\\s'
+        if all(c.isdecimal() for c in cs) and len(cs) >= 10:
+            return '\\d'
+        if len(cs) > 40:
+            return '.' if len(cs) >= len(self.alphabet) - 3 else f"<{len(cs)} chars>"
+        low = sorted({c.lower() for c in cs})
+        txt = ''.join(low)
+        return txt if len(txt) <= 1 else f"[{txt}]"
+
     def _newpos(self, chars, label, peek=False):
+        label = self._canon_label(chars, label)
         self.pos_chars.append(chars)
         self.pos_label.append(label)
         self.pos_peek.append(peek)
